@@ -22,6 +22,20 @@ class HK:
 
 def _private(x):
     return x
+
+
+class _Loud:
+    # a class-level computed attribute: evaluating it is visible (registration must not touch it)
+    def __get__(self, obj, cls):
+        print('HD.loud evaluated')
+        return 1
+
+
+class HD:
+    loud = _Loud()
+
+    def hm2(self, x):
+        return x + 2
 '''
 OTHER = '''\
 def of(x):
@@ -42,6 +56,7 @@ IMPORT_STYLES = [
     ('from helper import hf', 'hf(3)'),
     ('from helper import hf as h2, hg', 'h2(4) + hg(5)'),
     ('from helper import HK', 'HK().hm(6)'),
+    ('from helper import HD', 'HD().hm2(6)'),
     ('from helper import *', 'hf(7) + hg(8)'),
     ('import other', 'other.of(1)'),
     ('from other import og', 'og(2)'),
@@ -93,8 +108,14 @@ def gen_program(rng, module_mode=False):
         lines.append(st)
         exprs.append(ex)
     if rng.chance(1, 3):
-        lines.append('@profile\ndef already(n):\n    return n + 2\n')
-        exprs.append('already(1)')
+        if rng.fork('already').chance(1, 2):
+            lines.append('@profile\ndef already(n):\n    return n + 2\n')
+            exprs.append('already(1)')
+        else:
+            # an explicitly decorated function with definitions nested in it
+            lines.append('@profile\ndef already(n):\n    def already_inner(j):\n        return j + 1\n\n    class Local:\n        def meth(self, a):\n'
+                         '            return a * 2\n    return already_inner(n) + Local().meth(n)\n')
+            exprs.append('already(1)')
     for src, ex in defs:
         lines.append('')
         lines.append(src.rstrip('\n'))
